@@ -627,7 +627,11 @@ def to_arrow(a: ArrayType1D, zero_copy_only: bool = True) -> pa.Array | pa.Chunk
         else:
             if zero_copy_only and pd.api.types.is_bool_dtype(a):
                 raise TypeError("Zero copy conversions not possible with boolean types")
-            return pa.array(np.asarray(a))
+            arr = np.asarray(a)
+            if arr.dtype == object:
+                # strings with missing values: the type is inferred from the values, not from a leading NaN / NA
+                return pa.array(arr, from_pandas=True)
+            return pa.array(arr)
     elif isinstance(a, np.ndarray):
         if zero_copy_only and a.dtype == bool:
             raise TypeError("Zero copy conversions not possible with boolean types")
